@@ -1,5 +1,7 @@
 import NavisModel.Model.Backends
 import NavisModel.Proofs.WfB
+import NavisModel.Model.CutVariants
+import NavisModel.Proofs.CutEquivLemmas
 /-!
 # C04 — results do not depend on the compute back-end
 
@@ -103,10 +105,82 @@ theorem break_seeds_agree (t : Table) (hl : labelsOKB t = true) :
         · have : childCount t n.id > 1 := by omega
           simp [h, h0, h1, this]
 
+/-! ### `cut`: reverse BFS (networkx) versus decomposition after deleting one edge (igraph)
+
+`distalSet t c` is what `_cut_networkx` computes (descendants-or-self of `c`, by walking the edges
+backwards); `distalByDecompose t c` is what `_cut_igraph` computes (delete the edge from `c` to its
+parent, take the connected component of `c`). -/
+
+/-- `distalSet ⊆ distalByDecompose`: descendants of `c` are connected to `c` without the deleted edge. -/
+theorem cut_bfs_sub_decompose (t : Table) (hw : WF t) (c i : Int) (h : i ∈ distalSet t c) :
+    i ∈ distalByDecompose t c := Navis.CutEquiv.distal_sub_decompose hw h
+
+/-- `distalByDecompose ⊆ distalSet`: an undirected path that leaves the subtree of `c` must cross the
+deleted edge, because every other edge joins a node to its parent and "distal to `c`" is carried
+across such an edge in both directions. -/
+theorem cut_decompose_sub_bfs (t : Table) (hw : WF t) (c i : Int) (h : i ∈ distalByDecompose t c) :
+    i ∈ distalSet t c := Navis.CutEquiv.decompose_sub_distal hw h
+
+/-- **The two back-ends cut off the same set** — for every well-formed forest and *every* `c`
+(present or not, root or not, any number of roots). -/
+theorem cut_bfs_eq_decompose_any (t : Table) (hw : WF t) (c : Int) :
+    ∀ i, i ∈ distalByDecompose t c ↔ i ∈ distalSet t c :=
+  fun i => ⟨cut_decompose_sub_bfs t hw c i, cut_bfs_sub_decompose t hw c i⟩
+
+/-- … in the form the design asks for: one root, `c` a node other than the root. -/
+theorem cut_bfs_eq_decompose (t : Table) (hw : WF t) (_hroot : (roots t).length = 1) (c : Int) (_hc : c ∈ ids t)
+    (_hnr : c ∉ roots t) : ∀ i, i ∈ distalByDecompose t c ↔ i ∈ distalSet t c :=
+  cut_bfs_eq_decompose_any t hw c
+
+/-- Neither list repeats a node, so they are equal up to order. -/
+theorem cut_bfs_perm_decompose (t : Table) (hw : WF t) (c : Int) :
+    (distalByDecompose t c).Perm (distalSet t c) := by
+  apply (List.perm_ext_iff_of_nodup ?_ ?_).mpr (cut_bfs_eq_decompose_any t hw c)
+  · unfold distalByDecompose
+    cases parentOf t c with
+    | none => exact List.nodup_nil
+    | some p => exact Navis.CutEquiv.componentOf_nodup _ _ _
+  · unfold distalSet; exact hw.1.filter _
+
+/-- Hence the whole `cut` is back-end independent: both fragments are identical tables (same rows,
+same order, same repaired parents, same labels). -/
+theorem cut_decompose_eq_cut (t : Table) (hw : WF t) (c : Int) : cutByDecompose t c = cut t c := by
+  have hk : ∀ i, (distalByDecompose t c).contains i = (distalSet t c).contains i := by
+    intro i
+    have := cut_bfs_eq_decompose_any t hw c i
+    by_cases h : i ∈ distalSet t c
+    · simp [h, this.mpr h]
+    · have h' : i ∉ distalByDecompose t c := fun h' => h (this.mp h')
+      simp [h, h']
+  unfold cutByDecompose cut
+  cases find? t c with
+  | none => rfl
+  | some nc =>
+    simp only
+    split
+    · rfl
+    · have e1 : (fun i => (distalByDecompose t c).contains i) = fun i => (distalSet t c).contains i := funext hk
+      have e2 : (fun i => !(distalByDecompose t c).contains i || i == c) =
+          fun i => !(distalSet t c).contains i || i == c := funext fun i => by rw [hk i]
+      rw [e1, e2]
+
 /-! ### Non-vacuity -/
 def ex : Table := [⟨7, 3, 0, 0, 0, .end_⟩, ⟨3, 9, 3, 0, 0, .branch⟩, ⟨9, -1, 6, 0, 0, .root⟩, ⟨4, 3, 3, 4, 0, .end_⟩]
 example : wfB ex = true ∧ labelsOKB ex = true := by decide
 example : idxEdges ex = [(0, 1), (1, 2), (3, 1)] ∧ idEdges ex = [(7, 3), (3, 9), (4, 3)] := by decide
 example : seedsIgraph ex = [7, 3, 4] ∧ stopsIgraph ex = [3, 9] := by decide
+
+/-- `cut` at `3` (rows in the order `7, 3, 9, 4`): the decomposition finds the cut node first, the
+reverse BFS lists table order — the same set. -/
+example : distalByDecompose ex 3 = [3, 7, 4] ∧ distalSet ex 3 = [7, 3, 4] := by decide
+example : edgesWithout ex 3 9 = [(7, 3), (4, 3)] ∧ componentOf (edgesWithout ex 3 9) 0 3 = [3] ∧
+    componentOf (edgesWithout ex 3 9) 1 3 = [3, 7, 4] := by decide
+example : distalByDecompose ex 7 = [7] ∧ distalSet ex 7 = [7] ∧ distalByDecompose ex 5 = [] ∧ distalSet ex 5 = [] := by decide
+/-- At the root nothing is deleted: both give the whole tree. -/
+example : distalByDecompose ex 9 = [9, 3, 4, 7] ∧ distalSet ex 9 = [7, 3, 9, 4] := by decide
+example : (cutByDecompose ex 3).map (fun r => (ids r.1, ids r.2)) = some ([7, 3, 4], [3, 9]) ∧
+    cutByDecompose ex 3 = cut ex 3 ∧ cutByDecompose ex 9 = none := by decide
+/-- Without the deletion the component is the whole tree — the deleted edge is what separates. -/
+example : componentOf (edges ex) ((edges ex).length + 1) 3 = [3, 7, 9, 4] := by decide
 
 end Navis.Props.C04
